@@ -1,105 +1,33 @@
 /-
-  Proof infrastructure for the L3 model: the `Protocol` every machine obeys, stated for an arbitrary record of
-  methods `ops`, and the compositional lemmas for the classes const / kvp / str / fixed.
+  The ghost data of the structural classes (mutual structural recursion over the machines) and the compositional
+  lemmas for kvp / fixed.
 -/
-import GtModel.Model.Lazy
+import GtModel.Proofs.LazyDefs
 
 namespace GtModel.Lazy
-
-/-- strict containment is not needed as a separate notion: `sub ⊆ self ∧ sub ≠ self` -/
-def Iv.width (a : Iv) : Nat := a.hi - a.lo
-
-theorem Iv.contains_iff (a b : Iv) : a.contains b = true ↔ a.lo ≤ b.lo ∧ b.hi ≤ a.hi := by
-  simp [Iv.contains]
-
-theorem Iv.definitive_iff (a : Iv) : a.definitive = true ↔ a.lo = a.hi := by
-  simp [Iv.definitive]
-
-/-- Ghost data of a family of machines: invariant, settledness (the state right after a `bounds()` call), the
-    interval `bounds()` would return, the final cost and a termination measure. -/
-structure Ghost where
-  I : M → Prop
-  Q : M → Prop
-  view : M → Iv
-  fin : M → Nat
-  μ : M → Nat
-  script : M → DScript
-
-/-- `m'` is `m` after an operation that does not refine: invariant kept, same interval, same final cost -/
-structure Pres (g : Ghost) (m m' : M) : Prop where
-  inv : g.I m'
-  view : g.view m' = g.view m
-  fin : g.fin m' = g.fin m
-  mu : g.μ m' ≤ g.μ m
-  scr : g.script m' = g.script m
-
-/-- `m'` is `m` after a `tighten_bounds()` that returned `r` -/
-structure Step (g : Ghost) (m m' : M) (r : Bool) : Prop where
-  inv : g.I m'
-  fin : g.fin m' = g.fin m
-  sub : (g.view m).lo ≤ (g.view m').lo ∧ (g.view m').hi ≤ (g.view m).hi
-  mu : g.μ m' ≤ g.μ m
-  dec : r = true → g.μ m' < g.μ m
-  stop : r = false → (g.view m').lo = (g.view m').hi
-  strict : g.Q m → r = true → g.view m' ≠ g.view m
-  scr : g.script m' = g.script m
-
-/-- `m'` is `m` after any public operation: like `Pres`, but the interval may have shrunk -/
-structure Keeps (g : Ghost) (m m' : M) : Prop where
-  inv : g.I m'
-  fin : g.fin m' = g.fin m
-  sub : (g.view m).lo ≤ (g.view m').lo ∧ (g.view m').hi ≤ (g.view m).hi
-  mu : g.μ m' ≤ g.μ m
-  scr : g.script m' = g.script m
-
-theorem Keeps.refl (g : Ghost) (m : M) (h : g.I m) : Keeps g m m :=
-  ⟨h, rfl, ⟨Nat.le_refl _, Nat.le_refl _⟩, Nat.le_refl _, rfl⟩
-
-theorem Keeps.trans {g : Ghost} {a b c : M} (h1 : Keeps g a b) (h2 : Keeps g b c) : Keeps g a c :=
-  ⟨h2.inv, h2.fin.trans h1.fin, ⟨Nat.le_trans h1.sub.1 h2.sub.1, Nat.le_trans h2.sub.2 h1.sub.2⟩,
-    Nat.le_trans h2.mu h1.mu, h2.scr.trans h1.scr⟩
-
-/-- The protocol of one record of methods on the machines satisfying `g.I`. -/
-structure Protocol (ops : Ops) (g : Ghost) : Prop where
-  wf : ∀ m, g.I m → (g.view m).lo ≤ g.fin m ∧ g.fin m ≤ (g.view m).hi
-  bounds : ∀ m, g.I m → ∃ m', ops.bounds m = .ok (m', g.view m) ∧ Pres g m m' ∧ g.Q m'
-  tighten : ∀ m, g.I m → ∃ m' r, ops.tighten m = .ok (m', r) ∧ Step g m m' r
-  complete : ∀ m, g.I m → ∃ m' c, ops.complete m = .ok (m', c) ∧ Pres g m m' ∧ (g.Q m → g.Q m')
-  onDiff : ∀ m, g.I m → ∃ m', ops.onDiff m = .ok m' ∧ Keeps g m m'
-  dump : ∀ m, g.I m → (g.view m).lo = (g.view m).hi → ∃ m', ops.dump m = .ok (m', g.script m) ∧ Keeps g m m'
-
-theorem Pres.refl (g : Ghost) (m : M) (h : g.I m) : Pres g m m := ⟨h, rfl, rfl, Nat.le_refl _, rfl⟩
-
-theorem Pres.trans {g : Ghost} {a b c : M} (h1 : Pres g a b) (h2 : Pres g b c) : Pres g a c :=
-  ⟨h2.inv, h2.view.trans h1.view, h2.fin.trans h1.fin, Nat.le_trans h2.mu h1.mu, h2.scr.trans h1.scr⟩
-
-theorem Pres.keeps {g : Ghost} {m m' : M} (h : Pres g m m') : Keeps g m m' :=
-  ⟨h.inv, h.fin, ⟨by rw [h.view]; exact Nat.le_refl _, by rw [h.view]; exact Nat.le_refl _⟩, h.mu, h.scr⟩
-
-theorem Step.keeps {g : Ghost} {m m' : M} {r : Bool} (h : Step g m m' r) : Keeps g m m' :=
-  ⟨h.inv, h.fin, h.sub, h.mu, h.scr⟩
-
-end GtModel.Lazy
-
-namespace GtModel.Lazy
-
-/-- every element's upper bound is at most its recorded initial upper bound (parallel lists of equal length) -/
-def HiLe (g : Ghost) : List M → List Nat → Prop
-  | [], [] => True
-  | m :: ms, i :: is => (g.view m).hi ≤ i ∧ HiLe g ms is
-  | _, _ => False
-
-/-- what `EditCollection.bounds()` subtracts from the upper bound: Σ (initial upper bound − current upper bound) -/
-def decOf (g : Ghost) : List M → List Nat → Nat
-  | [], _ => 0
-  | m :: ms, is => (is.headD 0 - (g.view m).hi) + decOf g ms is.tail
-
-
-/-- a ghost that only knows the exposed intervals (used inside the invariant of `coll`) -/
-def viewOnly (view : M → Iv) : Ghost :=
-  { I := fun _ => True, Q := fun _ => True, view := view, fin := fun _ => 0, μ := fun _ => 0, script := fun _ => default }
 
 /-! ### ghost data, structural part; `ed`, `coll`, `ms` machines are atoms whose ghost data is a parameter -/
+
+mutual
+def finG (a : Ghost) : M → Nat
+  | .const _ c => c
+  | .kvp _ k v => finG a k + finG a v
+  | .str _ e => finG a e
+  | .fixed _ subs tail => finL a subs + tailCost tail
+  | .ed _ s cells => edFinOf s (finLL a cells)
+  | .coll _ _ p q => finL a q + finL a p
+  | .ms l s k w e => a.fin (.ms l s k w e)
+def finL (a : Ghost) : List M → Nat
+  | [] => 0
+  | m :: ms => finG a m + finL a ms
+def finRow (a : Ghost) : List M → List Nat
+  | [] => []
+  | m :: ms => finG a m :: finRow a ms
+/-- the matrix of the cells' final costs -/
+def finLL (a : Ghost) : List (List M) → List (List Nat)
+  | [] => []
+  | r :: rs => finRow a r :: finLL a rs
+end
 
 mutual
 def viewG (a : Ghost) : M → Iv
@@ -107,7 +35,7 @@ def viewG (a : Ghost) : M → Iv
   | .kvp _ k v => (viewG a k).add (viewG a v)
   | .str _ e => viewG a e
   | .fixed _ subs tail => ⟨(viewL a subs).lo + tailCost tail, (viewL a subs).hi + tailCost tail⟩
-  | .ed l s c => a.view (.ed l s c)
+  | .ed _ s cells => edViewOf s (finLL a cells)
   | .coll _ s _ q =>
       match s.cost with
       | some c => c
@@ -124,27 +52,13 @@ def decL (a : Ghost) : List M → List Nat → Nat
 end
 
 mutual
-def finG (a : Ghost) : M → Nat
-  | .const _ c => c
-  | .kvp _ k v => finG a k + finG a v
-  | .str _ e => finG a e
-  | .fixed _ subs tail => finL a subs + tailCost tail
-  | .ed l s c => a.fin (.ed l s c)
-  | .coll _ _ p q => finL a q + finL a p
-  | .ms l s k w e => a.fin (.ms l s k w e)
-def finL (a : Ghost) : List M → Nat
-  | [] => 0
-  | m :: ms => finG a m + finL a ms
-end
-
-mutual
 /-- structural measure: the number of `True` steps still possible -/
 def muG (a : Ghost) : M → Nat
   | .const _ _ => 0
   | .kvp _ k v => muG a k + muG a v
   | .str _ e => muG a e
   | .fixed _ subs tail => muL a subs + ((viewL a subs).hi - (viewL a subs).lo)
-  | .ed l s c => a.μ (.ed l s c)
+  | .ed _ s cells => edMu0 s + muLL2 a cells
   | .coll l s p q =>
       muL a q + muL a p + p.length + (if s.iterDone then 0 else 1)
         + ((viewG a (.coll l s p q)).hi - (viewG a (.coll l s p q)).lo)
@@ -152,6 +66,9 @@ def muG (a : Ghost) : M → Nat
 def muL (a : Ghost) : List M → Nat
   | [] => 0
   | m :: ms => muG a m + muL a ms
+def muLL2 (a : Ghost) : List (List M) → Nat
+  | [] => 0
+  | r :: rs => muL a r + muLL2 a rs
 end
 
 def DScript.subs : DScript → List DScript
@@ -165,14 +82,25 @@ def scriptG (a : Ghost) : M → DScript
   | .str l e => .mk l.kind l.fi l.ti (Iv.point (finG a e)) (scriptG a e).subs
   | .fixed l subs tail =>
       .mk l.kind l.fi l.ti (Iv.point (finL a subs + tailCost tail)) (scriptL a subs ++ tail.map DScript.ofScript)
-  | .ed l s c => a.script (.ed l s c)
+  | .ed l s cells =>
+      .mk l.kind l.fi l.ti (Iv.point (edFinOf s (finLL a cells)))
+        (matchesFrom 0 0 s.pre
+          ++ edPathScripts s (scriptLL a cells) (ptrace s (finLL a cells) (s.nt + s.nf + 1) s.nt s.nf).reverse
+          ++ matchesFrom (s.flen - s.suf) (s.tlen - s.suf) s.suf)
   | .coll l _ p q =>
       .mk l.kind l.fi l.ti (Iv.point (finL a q + finL a p)) (scriptL a q ++ scriptL a p)
   | .ms l s k w e => a.script (.ms l s k w e)
 def scriptL (a : Ghost) : List M → List DScript
   | [] => []
   | m :: ms => scriptG a m :: scriptL a ms
+def scriptLL (a : Ghost) : List (List M) → List (List DScript)
+  | [] => []
+  | r :: rs => scriptL a r :: scriptLL a rs
 end
+
+/-- the ghost that only knows intervals, final costs, measures and scripts (used inside the invariant of `ed`) -/
+def ghostOf (a : Ghost) : Ghost :=
+  { I := fun _ => True, Q := fun _ => True, view := viewG a, fin := finG a, μ := muG a, script := scriptG a }
 
 mutual
 /-- the invariant; `F` = the iteration bound of the loops (`mkOps q F n`): a collection must be able to finish its
@@ -182,7 +110,7 @@ def invG (a : Ghost) (F : Nat) : M → Prop
   | .kvp _ k v => invG a F k ∧ invG a F v
   | .str _ e => invG a F e
   | .fixed _ subs _ => invL a F subs
-  | .ed l s c => a.I (.ed l s c)
+  | .ed _ s cells => edMu0 s + muLL2 a cells < F ∧ invLL2 a F cells ∧ EdInv (ghostOf a) s cells
   | .coll _ s p q =>
       muL a q + muL a p + p.length + (if s.iterDone then 0 else 1) < F ∧
       invL a F q ∧ invL a F p ∧ HiLe (viewOnly (viewG a)) q s.inits ∧ HiLe (viewOnly (viewG a)) p s.pinits ∧
@@ -194,6 +122,9 @@ def invG (a : Ghost) (F : Nat) : M → Prop
 def invL (a : Ghost) (F : Nat) : List M → Prop
   | [] => True
   | m :: ms => invG a F m ∧ invL a F ms
+def invLL2 (a : Ghost) (F : Nat) : List (List M) → Prop
+  | [] => True
+  | r :: rs => invL a F r ∧ invLL2 a F rs
 end
 
 mutual
@@ -202,7 +133,7 @@ def setG (a : Ghost) : M → Prop
   | .kvp _ k v => setG a k ∧ setG a v
   | .str _ e => setG a e
   | .fixed _ subs _ => setL a subs
-  | .ed l s c => a.Q (.ed l s c)
+  | .ed _ s _ => edComplete s = true → s.cache.isSome = true
   | .coll _ _ _ _ => True
   | .ms l s k w e => a.Q (.ms l s k w e)
 def setL (a : Ghost) : List M → Prop
@@ -217,16 +148,19 @@ def height : M → Nat
   | .kvp _ k v => Nat.max (height k) (height v) + 1
   | .str _ e => height e + 1
   | .fixed _ subs _ => heightL subs + 1
-  | .ed _ _ _ => 1
+  | .ed _ _ cells => heightLL cells + 1
   | .coll _ _ p q => Nat.max (heightL q) (heightL p) + 1
   | .ms _ _ _ _ _ => 1
 def heightL : List M → Nat
   | [] => 0
   | m :: ms => Nat.max (height m) (heightL ms)
+def heightLL : List (List M) → Nat
+  | [] => 0
+  | r :: rs => Nat.max (heightL r) (heightLL rs)
 end
 
 def isAtom : M → Bool
-  | .ed .. => true | .ms .. => true | _ => false
+  | .ms .. => true | _ => false
 
 /-- the ghost of all machines of structural height ≤ n over the atoms `a` -/
 def G (a : Ghost) (F n : Nat) : Ghost :=
@@ -263,19 +197,6 @@ theorem kvpTighten_ok (h : Protocol rec g) (l : Lbl) (k v : M) (hk : g.I k) (hv 
     exact ⟨k', v', rv, by simp [kvpTighten, ek, ev, bind, Except.bind, pure, Except.pure], Or.inr ⟨sk, sv⟩⟩
 
 /-! ### lists of sub-edits: aggregates -/
-
-def sumLo (g : Ghost) : List M → Nat
-  | [] => 0
-  | m :: ms => (g.view m).lo + sumLo g ms
-def sumHi (g : Ghost) : List M → Nat
-  | [] => 0
-  | m :: ms => (g.view m).hi + sumHi g ms
-def sumFin (g : Ghost) : List M → Nat
-  | [] => 0
-  | m :: ms => g.fin m + sumFin g ms
-def sumMu (g : Ghost) : List M → Nat
-  | [] => 0
-  | m :: ms => g.μ m + sumMu g ms
 
 /-- `ms'` is `ms` after some operations on its elements -/
 structure Agg (g : Ghost) (ms ms' : List M) : Prop where
